@@ -187,6 +187,12 @@ class SimBackend(BaseBleakClient):
             link.ctx.probe("accessory_rejected_pdu")
             link.drop("accessory-rejected:" + str(e))
             raise BleakError("disconnected by accessory")
+        if link.profile.get("ack_lost_at_write") is not None and len(link.writes) == link.profile["ack_lost_at_write"]:
+            # the ATT write reached the accessory but its acknowledgement was lost: bleak raises while the link stays up
+            # (BlueZ: org.freedesktop.DBus.Error.NoReply; proxies: write-response timeout)
+            link.ctx.probe("ble_write_ack_lost")
+            link.ctx.event("ble_ack_lost", len(link.writes))
+            raise BleakError("write acknowledgement lost (simulated); link still up")
 
     async def write_gatt_descriptor(self, descriptor, data) -> None:
         return None
@@ -293,6 +299,10 @@ class LinkClient:
         except ValueError as e:
             self.is_connected = False
             raise BleakError(f"disconnected by accessory: {e}")
+        if getattr(self, "ack_lost_at", None) is not None and len(self.writes) == self.ack_lost_at:
+            # delivered, but the acknowledgement is lost while the link stays up
+            self.ctx.probe("ble_write_ack_lost")
+            raise BleakError("write acknowledgement lost (simulated); link still up")
 
     async def read_gatt_char(self, handle) -> bytearray:
         await asyncio.sleep(0.001)
